@@ -369,6 +369,12 @@ func (c *Cmt) produceBlock(args *BlockArgs) bool {
 	c.Height = h
 	c.Time = t
 	c.AppHash = b.Resp.AppHash
+	w.tr("block", fmt.Sprint(h), fbDigest(b.Resp), callsDigest(b.ELCalls))
+	if traceFile != nil {
+		if rn := w.refNode(); rn != nil {
+			fmt.Fprintf(traceFile, "  stores %v\n  req time=%s absent=%v misb=%d proposer=%x\n", rn.moduleDigest(false), b.Time, args.Absent, len(b.Misbehavior), b.Proposer[:4])
+		}
+	}
 	w.Stats.Heights++
 	if w.refNode() == nil {
 		// every replica that executed the block went down afterwards: bring one back so that the
